@@ -28,7 +28,7 @@ def gen_c08_history(rnd):
 def predicate(res, hr):
     for what, detail in hr.problems:
         res.violation(what, {"base": hr.base, "requests": hr.requests, "detail": detail})
-    rqs = [r for r in hr.requests if r["kind"] != "malformed"]
+    rqs = [r for r in hr.requests if r["kind"] not in ("malformed", "wait_save")]
     before, nt, known = {}, False, False
     for (ev, obs), rq in zip(hr.events, rqs):
         if ev["t"] == "restart" and obs and obs.get("before") and obs.get("after"):
@@ -86,6 +86,12 @@ def run(tier, seed):
         rq = [{"kind": "register", "wkind": k, "reading": r, "word": w} for (r, w), k in zip(regs, kinds)]
         rq += [dict(q, probe="before") for q in pq] + [{"kind": "restart"}] + [dict(q, probe="after") for q in pq] + [{"kind": "restart"}] + [dict(q, probe="after") for q in pq]
         items.append((hb, rq))
+    # a count that grows AFTER a save already stored its word (the table does not grow any more) must reach the file too
+    for w_in in ("はし", "かんじ"):
+        items.append((hb, [{"kind": "convert", "input": w_in, "context": "Normal"}, {"kind": "confirm", "session": 0, "cid": "0"}, {"kind": "wait_save"}, {"kind": "wait_save"},
+                           {"kind": "convert", "input": w_in, "context": "Normal"}, {"kind": "confirm", "session": 1, "cid": "0"}, {"kind": "wait_save"},
+                           {"kind": "convert", "input": w_in, "context": "Normal"}, {"kind": "confirm", "session": 2, "cid": "0"}]
+                      + [dict(q, probe="before") for q in pq] + [{"kind": "restart"}] + [dict(q, probe="after") for q in pq]))
     # readings outside the dictionary alphabet (never convertible): known finding F20 - they vanish at the restart, no answer changes
     items.append((hb, [{"kind": "register", "wkind": k, "reading": r, "word": w} for k, r, w in
                        (("CommonNoun", "１２３", "数"), ("ProperNoun", "カタカナ", "片仮名"), ("CommonNoun", "はし漢", "混"), ("CommonNoun", "ｱ", "半"), ("CommonNoun", "はしご", "梯子"))]
